@@ -21,15 +21,26 @@ Definition py_haskey (k : nat * nat) (m : list ((nat * nat) * trie)) : bool := m
 Definition py_getm (m : list ((nat * nat) * trie)) (k : nat * nat) : trie := match getm k m with Some f => f | None => @Leaf R (zero R) end.
 Definition py_setm (m : list ((nat * nat) * trie)) (k : nat * nat) (f : trie) : list ((nat * nat) * trie) := (k, f) :: m.
 Definition py_dictcomp (f : nat -> trie) (n : nat) : list trie := map f (seq 0 n).
+(* a dictionary clique -> factor that is filled key by key: all ncl slots, initially a dummy *)
+Definition py_emptyf (n : nat) : list trie := repeat (@Leaf R (zero R)) n.
+(* set of attributes seen so far (insertion order kept, duplicates harmless: only membership is used) *)
+Definition py_emptyset : list nat := [].
+Definition py_update (s cl : list nat) : list nat := s ++ cl.
+(* tuple(s & set(cl)): the attributes of cl that are in s (any order is the same factor: projection and subtraction are by name) *)
+Definition py_inter (cl s : list nat) : list nat := filter (fun a => memb a s) cl.
 (* Domain.invert on the attribute list of a factor *)
 Definition py_invert (dom attrs : list nat) : list nat := filter (fun a => negb (memb a attrs)) dom.
 
 Definition f_copy (f : trie) : trie := f.
 Definition f_exp (f : trie) : trie := f.
+(* Factor.log(): from a linear-space table to its log-space representation - the same semifield value *)
+Definition f_log (f : trie) : trie := f.
 Definition f_add (f g : trie) : trie := mat (fun x => mul R (lk f x) (lk g x)).
 Definition f_sub (f g : trie) : trie := mat (fun x => @sdiv R (lk f x) (lk g x)).
 Definition f_scale (f : trie) (k : car R) : trie := mat (fun x => mul R (lk f x) k).
 Definition f_logsumexp (f : trie) (attrs : list nat) : trie := mat (@sum_vars R shape attrs (lk f)).
+(* Factor.project(attrs) of a factor over dom: sum out the other attributes *)
+Definition f_project (f : trie) (dom attrs : list nat) : trie := mat (@sum_vars R shape (filter (fun a => negb (memb a attrs)) dom) (lk f)).
 Definition f_logsumexp_all (f : trie) (dom : list nat) : car R := @sum_vars R shape dom (lk f) base0.
 Definition s_log (k : car R) : car R := k.
 Definition s_sub (a b : car R) : car R := div R a b.
